@@ -78,9 +78,11 @@ def _remove_sandbox(root_dir: str):
             return
         retried.add(path)
         try:
-            os.chmod(os.path.dirname(path), stat.S_IRWXU)
+            if path != root_dir:
+                # (the directory that contains the sandbox is not touched)
+                _give_owner_all_permissions(os.path.dirname(path))
             if os.path.isdir(path) and not os.path.islink(path):
-                os.chmod(path, stat.S_IRWXU)
+                _give_owner_all_permissions(path)
                 shutil.rmtree(path, onerror=give_owner_all_permissions_and_retry)
             else:
                 os.unlink(path)
@@ -88,3 +90,7 @@ def _remove_sandbox(root_dir: str):
             pass
 
     shutil.rmtree(root_dir, onerror=give_owner_all_permissions_and_retry)
+
+
+def _give_owner_all_permissions(path: str):
+    os.chmod(path, stat.S_IMODE(os.stat(path).st_mode) | stat.S_IRWXU)
